@@ -117,6 +117,13 @@ def is_bit(ob):
     return isinstance(ob, Digit)
 
 
+def is_classical_gate(box):
+    """By class, not by the `classical` attribute the library computes: ClassicalGate and its
+    subclasses (Bits, Digits, Copy, Match) are classical, also without any wire (weights)."""
+    from discopy.quantum.gates import ClassicalGate
+    return isinstance(box, ClassicalGate)
+
+
 def tok_wty(ty):
     obs = list(ty.objects)
     return " ".join([str(len(obs))] + [("b%d" if is_bit(x) else "q%d") % x.dim for x in obs])
@@ -164,9 +171,9 @@ def tok_box(box):
         m = tok_mat(ty_size(b.dom), ty_size(b.cod), b.array)
         if m is None:
             return None, "array-not-exact"
-        k = "K" if b.classical else "P"
-        return head + "%s %s %s %s" % (k, tok_wty(b.dom), tok_wty(b.cod), m), \
-            ("classical" if b.classical else "quantum")
+        # `N`: the model itself decides classical / quantum from the wires, as Box.__init__ does
+        return head + "N %s %s %s" % (tok_wty(b.dom), tok_wty(b.cod), m), \
+            ("classical" if is_classical_gate(b) else "quantum")
     if hasattr(b, "array"):
         m = tok_mat(cq_size(b.dom), cq_size(b.cod), b.array)
         if m is None:
@@ -362,7 +369,7 @@ class Sem:
                     u, list(range(nout, nout + nin)) + list(range(nout))))
             else:
                 u = np.asarray(box.array, dtype=complex).reshape(din + dout)
-            if box.classical:
+            if is_classical_gate(box):                   # also a weight: no wire, any value
                 return self.diagonal(u, din, dout)
             return self.doubled(u, nin, nout)
         if hasattr(box, "array"):                        # a user channel given in CQ layout
